@@ -73,6 +73,19 @@ fn main() {
             flavour: rf.flavour.clone(),
             strict: true,
         };
+        // watchdog: a replay that does not finish is a failing case ("hang"), reported with the step budget
+        {
+            let out = out.clone();
+            let prop = rf.property.clone();
+            let limit: u64 = std::fs::read_to_string(&file).ok().and_then(|t| serde_json::from_str::<Value>(&t).ok()).and_then(|v| v["timeout_s"].as_u64()).unwrap_or(90);
+            std::thread::spawn(move || {
+                std::thread::sleep(std::time::Duration::from_secs(limit));
+                let f = common::Failure::new(&prop, "hang", format!("the replayed case did not finish within {limit} s (server call never returned)"));
+                let v = json!({"failure": f, "inconclusive": null, "labels": [], "steps": 0, "runs": 1});
+                let _ = std::fs::write(&out, serde_json::to_string(&v).unwrap());
+                std::process::exit(1);
+            });
+        }
         // a replay is run up to 3 times; it counts as failing when any run fails
         let mut o = dispatch_replay(&rf.check, &rf.case, &params);
         let mut runs = 1;
